@@ -173,7 +173,9 @@ prop("C01", modules=["codehash"],
      assumptions=[])
 
 prop("C03", modules=["codehash"],
-     functions=["code_hash:_stable_repr", "code_hash:fn_code_hash.<locals>.hash_if_code_object", "memento:MementoFunction._recompute_version"],
+     functions=["code_hash:_stable_repr", "code_hash:fn_code_hash.<locals>.hash_if_code_object", "memento:MementoFunction._recompute_version"]
+     + ["code_hash:%s.__init__" % k for k in ("NonMementoFunctionHashRule", "MementoFunctionHashRule", "GlobalVariableHashRule", "UndefinedSymbolHashRule")]
+     + ["code_hash:HashRule.__eq__", "code_hash:HashRule.__lt__", "code_hash:HashRule.__hash__"],
      extra_checks=["contracts.extra:env_salt"],
      design_ref="DESIGN.md section 6, C03",
      trusted=["value table of seed-independent repr(); 'sorting removes iteration order' (bag lemma); seed independence is checked on value terms by substituting a second seed"],
